@@ -42,6 +42,21 @@ CMP = {ast.Lt: "cmp_lt", ast.LtE: "cmp_le", ast.Gt: "cmp_gt", ast.GtE: "cmp_ge",
        ast.NotEq: "cmp_ne", ast.Is: "cmp_eq", ast.IsNot: "cmp_ne", ast.In: "in", ast.NotIn: "notin"}
 
 
+STR_METHODS = {"startswith", "endswith", "lower", "upper", "strip", "replace", "title"}
+
+
+def _strval(r):
+    if isinstance(r, Rat):
+        a = r.as_atom()
+        if a is not None and a.func.startswith("str:") and not a.args:
+            try:
+                v = eval(a.func[4:])
+            except Exception:
+                return None
+            return v if isinstance(v, str) else None
+    return None
+
+
 class Outcome(object):
     def __init__(self, conds, value, kind="return", node=None):
         self.conds = conds      # list of (Rat cond, bool polarity)
@@ -265,6 +280,16 @@ class Evaluator(object):
                 return form.apply(f, args, kwargs)
             except Undefined:
                 return form.apply("undefined:" + norm(node), [])
+        if isinstance(node.func, ast.Attribute) and node.func.attr in STR_METHODS:
+            base = self.ev(node.func.value, path)
+            sv = _strval(base)
+            av = [_strval(a) for a in args]
+            if sv is not None and all(a is not None for a in av) and not kwargs:
+                res = getattr(sv, node.func.attr)(*av)
+                if isinstance(res, bool):
+                    return Rat.const(1 if res else 0)
+                if isinstance(res, str):
+                    return form.apply("str:" + repr(res), [])
         head = fn.split(".")[0] if fn else None
         head_is_value = head is not None and head in path.env and not (
             isinstance(path.env[head], Rat) and path.env[head].key() == "$" + head)
@@ -371,6 +396,9 @@ class Evaluator(object):
                 return self.exec_block(st.body if cv != 0 else st.orelse, [path])
             if not isinstance(c, Rat):
                 c = form.apply("expr:" + norm(st.test), [])
+            known = self.known_polarity(c, path)
+            if known is not None:
+                return self.exec_block(st.body if known else st.orelse, [path])
             p1 = path.fork()
             p1.conds.append((c, True))
             p2 = path.fork()
@@ -396,6 +424,18 @@ class Evaluator(object):
         if isinstance(st, (ast.FunctionDef, ast.ClassDef)):
             return [path]
         raise Undecided("statement %s" % type(st).__name__)
+
+    def known_polarity(self, c, path):
+        """Polarity of condition c if the path already decided it (or its negation)."""
+        k = c.key()
+        neg = form.apply("not", [c]).key()
+        for pc, pol in path.conds:
+            pk = pc.key()
+            if pk == k:
+                return pol
+            if pk == neg:
+                return not pol
+        return None
 
     def run_stmts(self, stmts, env=None):
         """Execute a statement list from a given environment; returns the live paths."""
